@@ -96,4 +96,59 @@ theorem helper_safe_limited_copy_u32_from_reader (mw : Mem) (iopW : Int) (length
     exact ⟨hs, by rw [hs.2.2.2]; exact hok, hr.1, rfl, rfl, by omega, by omega, a4⟩
   · exact ⟨Same.refl mw, hok, rfl, by simp, by simp, Nat.zero_le _, by simp; omega, by simp; omega⟩
 
+/-! ### Slice helpers -/
+
+/-- **The slice helpers (as repaired) never do arithmetic on a NULL pointer and stay inside the slice**:
+the result is NULL exactly when the input is NULL or the indexes are out of bounds, otherwise
+`[off, off + len)` lies inside `[0, s.len)`. -/
+theorem subslice_safe (s : CSlice) (i j : Nat) :
+    (subsliceI s i).nullArith = false ∧ (subsliceJ s j).nullArith = false ∧ (subsliceIJ s i j).nullArith = false ∧
+    (∀ o, (subsliceI s i).off = some o → o + (subsliceI s i).len ≤ s.len ∧ s.base.isSome) ∧
+    (∀ o, (subsliceJ s j).off = some o → o + (subsliceJ s j).len ≤ s.len ∧ s.base.isSome) ∧
+    (∀ o, (subsliceIJ s i j).off = some o → o + (subsliceIJ s i j).len ≤ s.len ∧ s.base.isSome) := by
+  refine ⟨?_, ?_, ?_, ?_, ?_, ?_⟩
+  · unfold subsliceI; split <;> rfl
+  · unfold subsliceJ; split <;> rfl
+  · unfold subsliceIJ; split <;> rfl
+  · intro o h
+    unfold subsliceI at h ⊢
+    split at h
+    · next hle =>
+      cases hb : s.base with
+      | none => simp [hb] at h
+      | some b =>
+        simp only [hb, Option.map_some, Option.some.injEq] at h
+        subst h
+        simp only [if_pos hle]
+        exact ⟨by omega, rfl⟩
+    · simp at h
+  · intro o h
+    unfold subsliceJ at h ⊢
+    split at h
+    · next hle =>
+      cases hb : s.base with
+      | none => simp [hb] at h
+      | some b =>
+        simp only [hb, Option.map_some, Option.some.injEq] at h
+        subst h
+        simp only [if_pos hle]
+        exact ⟨by omega, rfl⟩
+    · simp at h
+  · intro o h
+    unfold subsliceIJ at h ⊢
+    split at h
+    · next hle =>
+      cases hb : s.base with
+      | none => simp [hb] at h
+      | some b =>
+        simp only [hb, Option.map_some, Option.some.injEq] at h
+        subst h
+        simp only [if_pos hle]
+        exact ⟨by omega, rfl⟩
+    · simp at h
+
+/-- The pinned `s[i ..]` on the empty slice `{NULL, 0}` computes `NULL + 0`
+(`fixes/C03-subslice-null-plus-zero.patch`). -/
+theorem subslice_pinned_null_arith : (subsliceIPinned ⟨none, 0⟩ 0).nullArith = true := by decide
+
 end WuffsVerif.Props.C03
